@@ -241,6 +241,8 @@ STANDIN_BOUND = {
     "phrases": "per language about 2 800 integers below 10^12 (all of 0..1200, 1900..2030, structured multiples of 10^3/10^6/10^9, 1 500 random "
                "ones from VERIF_SEED; pt below 10^6; de without the known 'eine' cases) spelled by tools/spell.py: text2digits == digits and the phrase "
                "inside a sentence is rewritten as one number; for C16 with one and two zero words in front",
+    "variants": "accepted orthographic variants of about 1 800 integers: en hyphen->space and British 'and'; fr hyphen->space and Belgian/Swiss tens "
+                "(septante, huitante/octante, nonante); pt Brazilian teens; de thousands said apart; es unaccented veintidos/veintitres/dieciseis",
     "pairs": "EXHAUSTIVE over the pair space of the property: every (a, b) in [1,99] x [0,99] and joiner in {space, conjunction} for the seven languages "
              "(19 800 phrases each; French without 'neuf' alone and without the word-ambiguous 'vingt quatre vingt' shapes): the rewriting is 'a [conj] b' or "
              "the one number spelled by exactly those words (conjunction optional, glued forms compared by letters)",
@@ -337,6 +339,18 @@ def standin(pid):
                 ran.append({"search": "phrases/" + code, "bound": STANDIN_BOUND["phrases"], "cases": total, "found": True})
                 return w, ran
         ran.append({"search": "phrases", "bound": STANDIN_BOUND["phrases"], "cases": total, "found": False})
+        if pid == "C01":
+            tsv = os.path.join(VERIF, "build", "variants.tsv")
+            with open(tsv, "w", encoding="utf-8") as f:
+                subprocess.run([sys.executable, os.path.join(VERIF, "tools", "spell.py"), str(seed), "variants"], stdout=f, text=True, timeout=300)
+            p = subprocess.run([wbin("standin"), "phrases", tsv], capture_output=True, text=True, timeout=900)
+            try:
+                w = json.loads(p.stdout.strip().split("\n")[-1])
+            except Exception:
+                w = {}
+            ran.append({"search": "variants", "bound": STANDIN_BOUND["variants"], "cases": w.get("cases"), "found": w.get("kind") == "call"})
+            if w.get("kind") == "call":
+                return w, ran
     if pid in ("C01", "C04", "C08", "C16", "C14"):
         for code in ["en", "fr", "es", "pt", "it", "de", "nl"]:
             w = find_witness(pid, {"unit": "lang_" + code, "fn": "", "kind": "standin"})
